@@ -12,7 +12,7 @@ from sim import core
 PROPS = {
     "C05": {
         "engine": "rewrite",
-        "quick": (4000, 55), "thorough": (60000, 600),
+        "quick": (6000, 50), "thorough": (150000, 600),
         "rule": ("Each run: 1-3 walkers on random diagrams (0-9 boxes, <=6 wires; monoidal, rigid, tensor, "
                  "circuit or zx clothing; degenerate shapes, repeated box names), <=60 scheduled requests "
                  "interchange(i, j, left) incl. illegal and out-of-range ones, dagger conjugation, "
@@ -28,7 +28,7 @@ PROPS = {
     },
     "C06": {
         "engine": "rewrite",
-        "quick": (700, 70), "thorough": (12000, 800),
+        "quick": (1000, 55), "thorough": (14000, 800),
         "rule": ("Each run: one random diagram (2-8 boxes), walkers moved by scheduled legal interchanges, "
                  "lazy normalize()/foliate() tasks stepped, interleaved, abandoned; atomic normal_form(); "
                  "M1 BFS of the interchanger class with normal_form on (a sample of) every member, both "
@@ -42,7 +42,7 @@ PROPS = {
     },
     "C07": {
         "engine": "rewrite",
-        "quick": (2500, 60), "thorough": (40000, 700),
+        "quick": (400, 50), "thorough": (6000, 800),
         "rule": ("Each run: one random rigid diagram (boxes, caps/cups of both orientations, winding numbers "
                  "in [-3,3], snake templates with obstructions on either side, invalid look-alike snakes), "
                  "lazy normalize() tasks stepped/interleaved/abandoned, legal interchanges on forks, "
